@@ -208,6 +208,35 @@ Lemma recur_only_actives sub a w : crashed w = None ->
    (actives (gett w a)) w.
 Proof. intros Hc. unfold framer_recur, guard at 1. rewrite Hc. reflexivity. Qed.
 
+(* a conditional-auxiliary clause interrupts its frame (suspends everything below / after it) only while the
+   auxiliary has not completed, and never in a crashed world *)
+Lemma suspend_truthy_incomplete sub a mf ns aux w w' :
+  suspend P sub a mf ns aux w = (w', true) -> done (gett w' aux) = false /\ crashed w' = None.
+Proof.
+  unfold suspend. intros H.
+  destruct (done (gett w aux)) eqn:Hd.
+  - destruct (negb (forallb (eval_need P a w) ns)); [inversion H|].
+    destruct (match main (gett w aux) with Some (mt, m) => negb (Nat.eqb mt a && Nat.eqb m mf) | None => false end);
+      [inversion H|].
+    destruct (negb (o_checkStart sub aux w)); [inversion H|].
+    match type of H with (match crashed ?W with _ => _ end) = _ => set (W4 := W) in * end.
+    destruct (crashed W4) eqn:Hc; [inversion H|].
+    destruct (done (gett W4 aux)) eqn:Hd4; [inversion H|].
+    inversion H; subst w'. split.
+    + unfold change. rewrite gett_modt. destruct (Nat.eqb aux a && _) eqn:E; [|exact Hd4].
+      apply andb_true_iff in E. destruct E as [E _]. apply Nat.eqb_eq in E. subst a. exact Hd4.
+    + exact Hc.
+  - match type of H with (match crashed ?W with _ => _ end) = _ => set (W4 := W) in * end.
+    destruct (crashed W4) eqn:Hc; [inversion H|].
+    destruct (done (gett W4 aux)) eqn:Hd4; [inversion H|].
+    inversion H; subst w'. split; assumption.
+Qed.
+
+(* once it is running, what the clause does no longer depends on its conditions *)
+Lemma suspend_running_ignores_conditions sub a mf ns ns' aux w :
+  done (gett w aux) = false -> suspend P sub a mf ns aux w = suspend P sub a mf ns' aux w.
+Proof. intros Hd. unfold suspend. rewrite Hd. reflexivity. Qed.
+
 (* ---------- C11: the clocks at evaluation time ---------- *)
 (* comparison needs on the framer clocks are exactly the written comparison *)
 Lemma elapsed_need me w c g : eval_need P me w (NElapsed c g) = cmpT O c (elapsed (gett w me)) g.
